@@ -218,12 +218,18 @@ def case_cnf_to_bdd(bindir, work, seed, i):
     for _ in range(m):
         w = rng.randint(1, 4)
         clauses.append([(rng.randrange(n), rng.random() < 0.5) for _ in range(w)])
-    nv = max(v for c in clauses for v, _ in c) + 1
+    # now and then the clause-free formula over 0..5 declared variables (`p cnf n 0`), or only
+    # empty clauses
+    degenerate = rng.random() < 0.04
+    if degenerate:
+        clauses = [[] for _ in range(rng.randint(0, 2))]
+    nv = max([v for c in clauses for v, _ in c] + [-1]) + 1
+    declared = nv if not degenerate else rng.randint(0, 5)
     d = os.path.join(work, "c2b%d" % i)
     os.makedirs(d, exist_ok=True)
     order = rng.choice(["auto_minfill", "auto_force"])
     # sometimes an empty clause (a lone 0), under either order heuristic
-    if rng.random() < 0.08:
+    if not degenerate and rng.random() < 0.08:
         clauses.insert(rng.randrange(len(clauses) + 1), [])
     # layouts: one clause per line, several clauses per line, clauses wrapped over lines
     # (also with the terminating 0 alone on a line), comment lines
@@ -246,14 +252,14 @@ def case_cnf_to_bdd(bindir, work, seed, i):
             body += " ".join(t[:cut]) + "\n"
             if t[cut:]:
                 body += " ".join(t[cut:]) + "\n"
-    text = ("c generated\n" if rng.random() < 0.3 else "") + "p cnf %d %d\n" % (nv, len(clauses)) + body
+    text = ("c generated\n" if rng.random() < 0.3 else "") + "p cnf %d %d\n" % (declared, len(clauses)) + body
     open(os.path.join(d, "f.cnf"), "w").write(text)
     cmd = [os.path.join(bindir, "bottomup_cnf_to_bdd"), "-f", os.path.join(d, "f.cnf"), "--order", order]
     exp = 0
     for a in range(1 << nv):
         if all(any(bool((a >> v) & 1) == p for v, p in c) for c in clauses):
             exp |= 1 << a
-    info = {"kind": "cnf_to_bdd", "case": i, "dimacs": text, "order": order, "layout": layout}
+    info = {"kind": "cnf_to_bdd", "case": i, "dimacs": text, "order": order, "layout": layout, "clause_free_or_only_empty_clauses": degenerate}
     nontrivial = exp not in (0, (1 << (1 << nv)) - 1)
     rc, out, err = run_cmd(cmd)
     if rc != 0:
@@ -306,6 +312,8 @@ def run(here, tier, seed, only=None):
             counters["cli_" + kind] = counters.get("cli_" + kind, 0) + 1
             if nontrivial:
                 distinct.add(json.dumps(info, sort_keys=True))
+            if info.get("clause_free_or_only_empty_clauses"):
+                counters["cli_cnf_without_nonempty_clause"] = counters.get("cli_cnf_without_nonempty_clause", 0) + 1
             if info.get("order") is not None:
                 counters["cli_with_configured_order"] = counters.get("cli_with_configured_order", 0) + 1
             for sub, sig, detail in vs:
